@@ -140,11 +140,10 @@ def step (s : MemBackend) : Op → MemBackend × Out
               metadata := s.metadata.filter (fun p => !(p.1.1 == fn && p.1.2.1 == arg)) }, .unit)
   | .ffn fn =>
     if s.readOnly then (s, .valueError) else
-    -- forget every call of the function that has a memento (results and metadata with it)
-    let ks := (s.mementos.filter (fun p => p.1.1 == fn)).map (·.1)
+    -- forget every call of the function; results and metadata are dropped by key prefix `qn/`
     ({ s with mementos := s.mementos.filter (fun p => !(p.1.1 == fn)),
-              result := s.result.filter (fun p => !(ks.contains p.1)),
-              metadata := s.metadata.filter (fun p => !(ks.contains (p.1.1, p.1.2.1))) }, .unit)
+              result := s.result.filter (fun p => !(p.1.1 == fn)),
+              metadata := s.metadata.filter (fun p => !(p.1.1 == fn)) }, .unit)
   | .fall => if s.readOnly then (s, .valueError) else ({ s with mementos := [], result := [], metadata := [] }, .unit)
   | .lsf => (s, .fns (sortDedup (s.mementos.map (·.1.1))))
   | .lsm fn => (s, .memset (sortDedup ((s.mementos.filter (fun p => p.1.1 == fn)).map (·.2))))
